@@ -307,6 +307,8 @@ def c10(ctx):
     propset.summary_ids(ctx)
     propset.prop_all(ctx)
     propset.lang_list(ctx)
+    from .rules import exact as _exact
+    _exact.lpstr_exact(ctx)
     from .rules import errs as _errs
     _errs.io_exact(ctx)
     from .rules import flush, codepage
